@@ -348,6 +348,7 @@ struct uftrace_time_range {
 struct iovec;
 
 int read_all(int fd, void *buf, size_t size);
+int fd_move_high(int fd);
 int pread_all(int fd, void *buf, size_t size, off_t off);
 int fread_all(void *byf, size_t size, FILE *fp);
 int write_all(int fd, const void *buf, size_t size);
